@@ -116,6 +116,12 @@ def configs(tier, seed):
         if not r.deriv or r.cplx or (r.heavy and tier == 'quick'):
             continue
         out.append(('deriv/' + r.name, dict(kind='recipe', recipe=r.name)))
+    # functionals are operators into the field: derivative(x)(d) of derived functionals (chain rules through
+    # gradients) -- same recipes as C09
+    from harness import funcs
+    for cid, rn, sk in funcs.instances(tier):
+        if rn.startswith('derived/') and sk != 'field':
+            out.append(('fderiv/' + cid, dict(kind='fderiv', recipe=rn, sk=sk)))
     rnd = random.Random(seed)
     unary = tuple(u for u in c04.UNARY)
     d1 = [t for t in c04.gen_trees(1, c04.OP_LEAVES, unary, c04.BINARY) if len(t) > 1]
@@ -145,7 +151,27 @@ def _build(t, env):
     return c04.build(t, env)
 
 
-def case(ctx, kind, recipe=None, trees=None):
+def case(ctx, kind, recipe=None, trees=None, sk=None):
+    if kind == 'fderiv':
+        from harness import funcs, c09
+        r, f = funcs.build(ctx, recipe, sk)
+        x = ctx.element(f.domain, 'x')
+        d = ctx.element(f.domain, 'd')
+        if r.pre is not None:
+            r.pre(ctx, x)
+        try:
+            D = f.derivative(x)
+        except NotImplementedError:
+            ctx.fact('no-derivative-offered', True)
+            return
+        ctx.fact('derivative-is-linear', D.is_linear)
+        try:
+            dd = c09.directional_derivative(ctx, f, x, d)
+        except NotImplementedError:
+            ctx.fact('values-not-implemented', True)
+            return
+        ctx.eq('derivative(x)(d)=directional-derivative', D(d), dd if not ctx.canary else dd + 1)
+        return
     if kind == 'recipe':
         r = reg.by_name(recipe)
         op = r.build(ctx)
